@@ -242,7 +242,13 @@ func (e *Exec) safety(st *State, kind string, goal *Term, n ast.Node) {
 	if n != nil {
 		label = shortText(e.nodeText(n))
 	}
-	e.oblige(st, kind, label, goal, n, nil)
+	// run-time-failure obligations belong to the crash-freedom property (C04) unless the contract
+	// names further properties whose statement includes "never panics"
+	tags := []string{"C04"}
+	if e.contract != nil && len(e.contract.SafetyTags) > 0 {
+		tags = e.contract.SafetyTags
+	}
+	e.oblige(st, kind, label, goal, n, tags)
 }
 
 // ---------------------------------------------------------------------------------------------
@@ -288,6 +294,7 @@ func (prog *Program) verifyFunc(tg target) (res *FuncResult) {
 		if c != nil {
 			merged.Loops, merged.WrapOK, merged.Alloc, merged.Cases = c.Loops, c.WrapOK, c.Alloc, c.Cases
 			merged.Anys = append(append([]binder{}, merged.Anys...), c.Anys...)
+			merged.SafetyTags = c.SafetyTags
 		}
 		merged.AltPkg = tg.alt.Pkg
 		c = &merged
